@@ -1,6 +1,35 @@
 LEVEL = "model_checking"
+# Two ESX models on the real library code (c18_common.h holds the shared key/value objects, callbacks, reference map):
+#   lht    aws_linked_hash_table: put / find / find_and_move_to_back / remove / clear; the iteration list is walked
+#          (forwards and backwards) and get_element_count is called after every operation, i.e. in every reachable state
+#   cache  aws_cache_new_fifo / _lifo / _lru with max_items 1,2,3: put / find / remove / clear (+ use_lru_element,
+#          get_mru_element for LRU); get_element_count after every operation
+# Every configuration is finite and is run to its FIXPOINT (all histories of every length over the alphabet).
+# The deadlines are generous on purpose (shared machine): the runs are CPU-bound, about 14 us of CPU per transition;
+# quick is ~7e6 transitions (~10 s on 16 idle cores).
 HARNESSES = [
     dict(name="lht", src=["lht.c"], variant="asan", deadline={"quick": 300, "thorough": 1500}),
     dict(name="cache", src=["cache.c"], variant="asan", deadline={"quick": 300, "thorough": 1500}),
 ]
-ASSUMPTIONS = []
+ASSUMPTIONS = [
+    "bounds: key identities k0..k3, each with two equal-but-distinct key objects (A/B twins), values v0..v2, max_items 1..3, "
+    "initial_item_count 1 or 8 for the bare table; hash callback either spreads the keys over four home slots (full alphabet) or makes them "
+    "collide (all four on one chain / k0,k1,k3 on one chain with k3 hashing to 0; these run with 2 values or 3 keys because every reachable "
+    "slot layout of the underlying hash table is a distinct canonical state); destructors none / both (quick) + key-only / value-only (thorough)",
+    "states are de-duplicated on a 128-bit hash of the canonical state (hash compaction); the canonical state contains the slot layout of the "
+    "underlying aws_hash_table read through the library's private/hash_table_impl.h, the internal list and the reference list",
+    "reading (headers): a put on a stored key replaces the element, the replacement counts as the newest insertion (FIFO/LIFO) and as a use (LRU): "
+    "it moves to the back of the order; FIFO evicts the front, LIFO the entry that was last before the put, LRU the front after find hits, puts "
+    "and use_lru_element moved entries to the back",
+    "reading (hash_table.h 'both old key and value objects will be destroyed', semantics preserved by linked_hash_table.h / *_cache.h): the OLD key "
+    "object is destroyed exactly once when an equal-but-distinct key object replaces it; when the very same key object is put again it stays the "
+    "stored key and is not destroyed; the old value is destroyed once in both cases (also when the same value object is put again)",
+    "with a key destructor installed the stored key must be the object of the latest put (the other one was destroyed); without one the headers do "
+    "not say which of two equal objects is kept, so either twin is accepted and the reference follows the container",
+    "a key object reaching the hash/equals callback after its destructor ran in the same operation is reported (use of a destroyed key); "
+    "destructor counters are compared as per-operation deltas and are not part of the canonical state",
+    "the order of a cache's internal list is not compared with the reference (only the victim of each eviction, the returned values and the "
+    "contents are); it is part of the canonical state, so an internal order that can lead to a wrong victim is followed until it does",
+    "remove of an absent key: only 'nothing changes, nothing is destroyed' is demanded (its return code is not documented for the linked table); "
+    "allocator balance is not part of C18 and is not checked; values are never NULL (find reports absence as NULL)",
+]
